@@ -43,6 +43,12 @@
      keep every field but the duration, and the only unit that can disappear is the look-ahead unit of a
      non-leading track while the presentation has not started; c01_spec_unit_negative: a unit before -10 s
      changes nothing); c01_accounting_nonvacuous runs it on the example history.
+   - c01_leading_track_closed_form: the CLOSED FORM for the leading track: along every history of successful
+     writes from Start its log followed by its look-ahead unit is exactly the units the history offers to the
+     track ([offered]: every video access unit not skipped before the first random-access one, every access unit /
+     packet of an audio write with the computed timestamps) that lie at or after -10 s, each once, in writing
+     order, every field but the duration as written, +10 s (c01_closed_form_nonvacuous). Non-leading tracks
+     additionally lose whatever they were offered before the presentation started (c01_spec_unit_conservation).
    - c01_mpegts_history_accounting: the same for the MPEG-TS variant (specification tspec in Model/MuxSpec.v: one
      log without look-ahead, "random access seen" per track, "the presentation has started"): for every
      configuration Start accepts and every history of successful writes the model's log, flags and openness
@@ -54,7 +60,7 @@
    are outside the model). *)
 From Coq Require Import List ZArith Bool.
 From GoHls Require Import Model.Mux Proofs.MuxStream Proofs.MuxLift Proofs.MuxWindow Proofs.MuxHistory
-  Proofs.MuxPlaylist Proofs.MuxSamples Proofs.MuxLog Proofs.MuxLogStep Proofs.MuxLogTS Proofs.MuxPartIds Proofs.MuxChain Proofs.MuxRAStart Proofs.MuxAuditAdds Model.MuxSpec Proofs.MuxAccount Proofs.MuxTSStart Proofs.MuxAccountTS.
+  Proofs.MuxPlaylist Proofs.MuxSamples Proofs.MuxLog Proofs.MuxLogStep Proofs.MuxLogTS Proofs.MuxPartIds Proofs.MuxChain Proofs.MuxRAStart Proofs.MuxAuditAdds Model.MuxSpec Proofs.MuxAccount Proofs.MuxTSStart Proofs.MuxAccountTS Proofs.MuxAccountClosed.
 Import ListNotations.
 Local Open Scope Z_scope.
 
@@ -270,3 +276,19 @@ Theorem c01_spec_leading_keeps_everything : forall cf sp ti smp0 x,
              /\ map core (kept x') = map core (kept x) ++ [core (sp_incoming cf smp0)].
 Proof. exact spec_leading_keeps_everything. Qed.
 Print Assumptions c01_spec_leading_keeps_everything.
+
+(* ---- the closed form for the leading track ---- *)
+Theorem c01_leading_track_closed_form : forall c m0 ops ti cf si,
+  start c = Ok m0 -> c_variant c <> MPEGTS -> all_ok m0 ops ->
+  nth_error (map tk_static (m_tracks m0)) ti = Some (cf, true, si) ->
+  let m := mux_run m0 ops in
+  map core (slog m ti ++ pend_list m ti) = map core (accepted cf (offered cf ti false ops)).
+Proof. exact leading_track_closed_form. Qed.
+Print Assumptions c01_leading_track_closed_form.
+
+Theorem c01_closed_form_nonvacuous : exists m0 cf si,
+  start ex_cfg = Ok m0 /\ c_variant ex_cfg <> MPEGTS /\ all_ok m0 ex_ops
+  /\ nth_error (map tk_static (m_tracks m0)) 0 = Some (cf, true, si)
+  /\ map (fun s => (s_pay s, s_dts s)) (accepted cf (offered cf 0 false ex_ops)) = [(11, 900000); (12, 903000); (13, 906000)].
+Proof. exact closed_form_example. Qed.
+Print Assumptions c01_closed_form_nonvacuous.
